@@ -18,7 +18,8 @@ RULE = ("rectangular string tables (1-4 columns x 1-5 rows, 1-2 blocks, 1-3 cate
         "(text compared byte for byte, parse result cell for cell); tokeniser and category/block/file readers on "
         "foreign and malformed CIF text; mapping-operation histories on the six container classes against the model "
         "and a dict (names with leading/inner/trailing/double underscores, alternative text layouts of the same element); == of two "
-        "parsed files that lay out the same tables differently, before any access; set/delete/serialise/row_count histories on text and binary categories (cached row count).  non-trivial = a table with an awkward value or >= 2 rows, a reader text with >= 2 tokens, "
+        "parsed files that lay out the same tables differently, before any access; explicitly masked columns read in every as_array flavour, "
+        "serialised, and sharing their data with an unmasked column; set/delete/serialise/row_count histories on text and binary categories (cached row count).  non-trivial = a table with an awkward value or >= 2 rows, a reader text with >= 2 tokens, "
         "a history with >= 3 operations; distinct = different op lines")
 TRUSTED = ["Python str.strip/split/splitlines/partition/ljust and dict order are modelled by their documented semantics "
            "(whitespace = str.isspace, only '\\n' as line boundary inside the hypotheses)",
@@ -34,7 +35,7 @@ LEVEL_TEXT = ("Lean theorems, all for unbounded inputs: C06_table_looped and C06
               "tie the quoting decision and every reader first-character test to the tables regenerated from cif.py. "
               "C06_container_refines, C06_container_eq_refines, C06_get_parses: every history of mapping operations incl. == on the "
               "lazily parsed containers refines a plain association list; C06_rowcount_not_stale: the cached row count never "
-              "goes stale (after two fix: commits); C06_container_refines_prefixed / C06_binary_block_refines: BinaryCIFBlock's '_' key "
+              "goes stale (after two fix: commits); C06_reads_pure: reads (as_array flavours, data, get/contains/iter/len) never change a column or a store; C06_container_refines_prefixed / C06_binary_block_refines: BinaryCIFBlock's '_' key "
               "prefix (stored key '_'+name, iteration removes exactly one prefix, after a fix: commit) refines the same mapping for every name. Partial: multi-line values and single-line values with both quote characters "
               "only under explicit line hypotheses (C06_multiline_partial, C06_both_quotes_partial, at the category reader's "
               "token pipeline; each excluded class has a _defect witness and is a known finding). Not a theorem: block/file cutting "
@@ -692,6 +693,26 @@ def eqfiles_case(rng):
             "texts": [ta, tb], "expect_equal": equal}
 
 
+def column_case(rng):
+    """A column built in memory with an explicit mask over real values, read in every flavour, serialised,
+    and its data shared with an unmasked column."""
+    flav = rng.choice(["t", "t", "b"])
+    n = rng.choice([1, 2, 2, 3, 4])
+    vals = []
+    for _ in range(n):
+        v = rng.choice(PLAIN + ["a b", "it's", "x#y", "_u", "#h", "data_1", "v w x"])
+        vals.append(v)
+    mask = [rng.choice([0, 0, 1, 2]) for _ in range(n)]
+    if rng.random() < 0.15:
+        mask = [0] * n                       # an explicit all-PRESENT mask (the mask was "lifted")
+    ops = [f"colnew {flav} {enc_list(vals)} {''.join(map(str, mask))}"]
+    reads = ["colarr default", "colarr str", "colarr " + enc(rng.choice(["-", "0", "N"])), "coldata", "colplain", "colser"]
+    for _ in range(rng.randint(2, 6)):
+        ops.append(rng.choice(reads))
+    ops += ["coldata", "colplain", "colser", "colarr default"]
+    return {"kind": "column/" + flav, "ops": ops, "values": vals, "mask": mask}
+
+
 def rowcount_history(rng):
     """Columns of a category replaced by longer/shorter ones between serialisations (cached _row_count)."""
     flav = rng.choice(["t", "b"])
@@ -774,6 +795,9 @@ def cases(rng, tier):
     # 6b. equality of two parsed files with different layouts of the same tables, before any access
     for _ in range(120 if quick else 3000):
         yield eqfiles_case(rng)
+    # 6c. explicitly masked columns: reads must not change them
+    for _ in range(120 if quick else 3000):
+        yield column_case(rng)
     # 7. cached row count across edits
     for _ in range(80 if quick else 2000):
         yield rowcount_history(rng)
@@ -888,6 +912,43 @@ def _err(e):
     return "ERR:" + type(e).__name__
 
 
+def _mk_col(flav, vals, mask):
+    """(masked column, its data object) built in memory."""
+    import numpy as np
+    import biotite.structure.io.pdbx as pdbx
+    if flav == "t":
+        data = pdbx.CIFData(list(vals))
+        return pdbx.CIFColumn(data, np.array(mask, dtype=np.uint8)), data
+    data = pdbx.BinaryCIFData(np.array(list(vals)))
+    return pdbx.BinaryCIFColumn(data, pdbx.BinaryCIFData(np.array(mask, dtype=np.uint8))), data
+
+
+def _col_arr(flav, col, how):
+    if how == "default":
+        a = col.as_array()
+    elif how == "str":
+        a = col.as_array(str)
+    else:
+        a = col.as_array(str, masked_value=how) if flav == "t" else col.as_array(str, how)
+    return [str(x) for x in a]
+
+
+def _col_roundtrip(flav, col, data):
+    """Category {m: the masked column, p: an unmasked column on the same data} written and read back:
+    [(key, values, mask string)]"""
+    import msgpack
+    import biotite.structure.io.pdbx as pdbx
+    if flav == "t":
+        cat = pdbx.CIFCategory({"m": col, "p": pdbx.CIFColumn(data)}, name="c")
+        back = pdbx.CIFCategory.deserialize(cat.serialize())
+        return [(k, [str(x) for x in back[k].as_array()], _mask_str(back[k])) for k in back]
+    cat = pdbx.BinaryCIFCategory({"m": col, "p": pdbx.BinaryCIFColumn(data)})
+    f = pdbx.BinaryCIFFile({"b": pdbx.BinaryCIFBlock({"c": cat})})
+    packed = msgpack.packb(f.serialize(), use_bin_type=True, default=pdbx.bcif._encode_numpy)
+    back = pdbx.BinaryCIFFile.deserialize(msgpack.unpackb(packed, use_list=True, raw=False))["b"]["c"]
+    return [(k, [str(x) for x in back[k].as_array(str)], _mask_str(back[k])) for k in back]
+
+
 def _rc_col(flav, n):
     import biotite.structure.io.pdbx as pdbx
     return pdbx.CIFColumn([str(i) for i in range(n)]) if flav == "t" else pdbx.BinaryCIFColumn(list(range(n)))
@@ -909,6 +970,7 @@ def run_impl(case):
     out = []
     kind, cont = None, None
     rc, rcflav = None, None
+    col, coldata, colflav = None, None, None
     for op in case["ops"]:
         w = op.split()
         try:
@@ -957,6 +1019,21 @@ def run_impl(case):
                             cs.append(_optname(cn) + ":!")
                     bs.append(enc(bn) + "@" + ("_" if not cs else "/".join(cs)))
                 out.append("ok " + ("_" if not bs else "|".join(bs)))
+            elif w[0] == "colnew":
+                colflav = w[1]
+                col, coldata = _mk_col(colflav, dec_list(w[2]), [int(c) for c in w[3]])
+                out.append("ok")
+            elif w[0] == "colarr":
+                how = w[1] if w[1] in ("default", "str") else dec(w[1])
+                out.append("ok " + enc_list(_col_arr(colflav, col, how)))
+            elif w[0] == "coldata":
+                out.append("ok " + enc_list([str(x) for x in col.data.array]))
+            elif w[0] == "colplain":
+                import biotite.structure.io.pdbx as _p
+                plain = _p.CIFColumn(coldata) if colflav == "t" else _p.BinaryCIFColumn(coldata)
+                out.append("ok " + enc_list([str(x) for x in (plain.as_array() if colflav == "t" else plain.as_array(str))]))
+            elif w[0] == "colser":
+                out.append("ok " + ";".join(enc(k) + "=" + enc_list(v) + "~" + m for k, v, m in _col_roundtrip(colflav, col, coldata)))
             elif w[0] == "eqfiles":
                 try:
                     fa, fb = pdbx.CIFFile.deserialize(dec(w[1])), pdbx.CIFFile.deserialize(dec(w[2]))
@@ -1264,7 +1341,41 @@ def _eqfiles_oracle(case):
     return []
 
 
+def _column_oracle(case):
+    """Reading a column (as_array in every flavour, serialising it) never changes it."""
+    flav = case["kind"].split("/")[1]
+    vals, mask = case["values"], case["mask"]
+    shown = [v if m == 0 else "." if m == 1 else "?" for v, m in zip(vals, mask)]
+    key = "C06/column/" + ("text" if flav == "t" else "binary")
+    col, data = _mk_col(flav, vals, mask)
+    for how in ("default", "str", "-", "default"):
+        got = _col_arr(flav, col, how)
+        exp = shown if how in ("default", "str") else [v if m == 0 else how for v, m in zip(vals, mask)]
+        if got != exp:
+            return [(key + "/as_array", f"as_array({how}) of data {vals} mask {mask} gave {got}, expected {exp}")]
+        if [str(x) for x in col.data.array] != vals:
+            return [(key + "/read-changes-data", f"after as_array({how}) the stored data {vals} (mask {mask}) became {[str(x) for x in col.data.array]}")]
+    back = _col_roundtrip(flav, col, data)
+    if [str(x) for x in col.data.array] != vals:
+        return [(key + "/read-changes-data", f"after serialising, the stored data {vals} (mask {mask}) became {[str(x) for x in col.data.array]}")]
+    mexp = "".join(map(str, mask)) if (flav == "b" or any(mask)) else "-"
+    exp = [("m", shown, mexp), ("p", vals, "-")]
+    if back != exp:
+        return [(key + "/roundtrip-shared-data", f"category {{m: masked {vals}/{mask}, p: same data unmasked}} read back as {back}, expected {exp}")]
+    # the mask can be lifted afterwards
+    col2, _ = _mk_col(flav, vals, mask)
+    _col_arr(flav, col2, "default")
+    import biotite.structure.io.pdbx as pdbx
+    lifted = pdbx.CIFColumn(col2.data) if flav == "t" else pdbx.BinaryCIFColumn(col2.data)
+    got = [str(x) for x in (lifted.as_array() if flav == "t" else lifted.as_array(str))]
+    if got != vals:
+        return [(key + "/read-changes-data", f"after reading the masked column, an unmasked column on its data shows {got} instead of {vals}")]
+    return []
+
+
 def oracle(case):
+    if case.get("kind", "").startswith("column/"):
+        return _column_oracle(case)
     if case.get("kind") == "eqfiles":
         return _eqfiles_oracle(case)
     if case.get("kind", "").startswith("rowcount/"):
